@@ -33,6 +33,30 @@ TEXT = {
             "3.C17"),
 }
 
+TEXT.update({
+    "C04": ("differential monitor: every storage kind / wrapper combination against a BTreeMap over arbitrary operation sequences, slice views and dense-table hook included",
+            "Return values (incl. replaced / removed value ids), mask, count, emptiness and every lookup are compared with a plain map after every operation of seeded random sequences over 17 storage/wrapper combinations and dense / sparse / layer-boundary index sets; as_slice / as_mut_slice views and the DenseVecStorage index tables (verif-hooks self-check) are compared too. Thorough adds release, far indices (>262144) and ASan.",
+            "3.C04"),
+    "C11": ("overlap monitor (per-storage reader/writer counters, logical-clock intervals, torn-write tokens) inside generated systems + borrow-state probe of SystemData declarations",
+            "Random system graphs are dispatched on pools of 1-32 threads; each system updates atomic reader/writer counters for exactly the storages it holds, writes and re-validates unique tokens, and stamps enter/exit from a logical clock; after each dispatch exactly-once, conflict-pair disjointness, dependency, barrier and thread-local order are checked, panics escaping dispatch are violations, and for each storage handle type the real borrow state after fetch() is compared with reads()/writes(). Thorough adds ThreadSanitizer.",
+            "3.C11"),
+    "C12": ("event-stream monitor: expected Inserted/Removed sequence and Modified set per operation window vs the channel, replay-reproduces-membership check",
+            "A reader registered before the history is read after every operation; the Inserted/Removed subsequence must equal the model's exactly (order and multiplicity), the set of Modified ids must equal the set of components handed out mutably (deferred wrapper: actually dereferenced mutably), nothing may appear while emission is off, and replaying I/R over the membership at registration must reproduce the mask.",
+            "3.C12"),
+    "C13": ("ordered record of restricted-join activity replayed against the component map and the event model",
+            "Restricted views are joined sequentially and lending, read-only and mutable, with seeded subsets of get / get_mut / get_other / get_other_mut; visited indices must equal the mask, reads equal direct lookups, writes land only on their entity, other-entity lookups follow the aliveness and membership rules, the mask is unchanged, and on tracked storages Modified appears exactly for the items fetched mutably.",
+            "3.C13"),
+    "C14": ("round-trip monitor through the marker correspondence with structural equality of components and mapped references; serialised data read back independently",
+            "Seeded worlds with arbitrary reference graphs are serialised (RON/JSON, plain and recursive, both marker kinds), the data optionally permuted, loaded into an empty world and compared entity by entity through marker ids; the recursive closure is computed on the model.",
+            "3.C14"),
+    "C15": ("marker-uniqueness invariant checked after every step of mark/delete/maintain/serialise/deserialise histories + merge expectation from the data model",
+            "After every step (entities, markers).join() must carry pairwise distinct marker ids equal to the model's; every load is checked record by record: known markers update in place (absent components removed), unknown markers create exactly one entity, everything else untouched.",
+            "3.C15"),
+    "C18": ("generated-program testing of the derive macros: generator-written field-wise reference conversion + call-count probe + TypeId comparison of selected storages",
+            "Type definitions drawn from the grammar of supported shapes are compiled against the real macros together with an independent field-wise reference; Data fields, serialised form, round trip through non-identity entity maps, conversion call counts and forwarded serde attributes are compared on seeded values; derived Component storages are compared by TypeId. A shape that stops compiling is reported.",
+            "3.C18"),
+})
+
 NOTE = "Trusted: the harness's reference models and ledger, rustc/Miri/sanitizer runtimes, shred/hibitset/rayon as dependencies. Sampled, seeded exploration - not exhaustive; evidence states what was observed."
 
 
